@@ -639,6 +639,8 @@ class Blockwise(Expr):
 
     def _simplify_up(self, parent, dependents):
         if self._projection_passthrough and isinstance(parent, Projection):
+            if _has_per_column_argument(self):
+                return
             return plain_column_projection(self, parent, dependents)
 
     @functools.cached_property
@@ -1541,6 +1543,8 @@ class Clip(Elemwise):
 
     def _simplify_up(self, parent, dependents):
         if isinstance(parent, Projection):
+            if _has_per_column_argument(self):
+                return
             return plain_column_projection(self, parent, dependents)
 
 
@@ -2856,6 +2860,12 @@ class Binop(Elemwise):
 
     def _simplify_up(self, parent, dependents):
         if isinstance(parent, Projection):
+            if any(
+                isinstance(op, (list, tuple, np.ndarray, pd.Index))
+                for op in (self.left, self.right)
+            ):
+                # one entry per column: has to see all columns of the frame
+                return
             changed = False
             columns = determine_column_projection(self, parent, dependents)
             columns = _convert_to_list(columns)
@@ -3635,6 +3645,8 @@ class MaybeAlignPartitions(Expr):
 
     def _simplify_up(self, parent, dependents):
         if isinstance(parent, Projection) and self._projection_passthrough:
+            if _has_per_column_argument(self):
+                return
             return plain_column_projection(self, parent, dependents)
 
     @functools.cached_property
@@ -4110,6 +4122,29 @@ def _sort_mixed(values):
     null_locs = null_pos.nonzero()[0]
     locs = np.concatenate([num_locs, str_locs, tuple_locs, null_locs])
     return values.take(locs)
+
+
+def _has_per_column_argument(expr):
+    """Is an argument of this frame operation given per column: a frame, a
+    pandas object, a mapping keyed by column or one entry per column?  It would
+    no longer match the frame after a column projection was pushed below."""
+    frame = expr.frame
+    if frame.ndim < 2:
+        return False
+    columns = list(frame.columns)
+    for op in expr.operands[1:]:
+        if isinstance(op, Expr):
+            if op.ndim > 1:
+                return True
+        elif isinstance(op, (pd.Series, pd.DataFrame)):
+            return True
+        elif isinstance(op, Mapping):
+            if any(key in columns for key in op):
+                return True
+        elif isinstance(op, (list, np.ndarray, pd.Index)):
+            if len(op) == len(columns):
+                return True
+    return False
 
 
 def plain_column_projection(expr, parent, dependents, additional_columns=None):
